@@ -560,6 +560,50 @@ func lvRandomCfg(r *rand.Rand, seed int64) *lvCfg {
 		cfg.Accts["a3"] = lvAcctCfg{Kind: "none"}
 	}
 	cfg.Accts["a4"] = lvAcctCfg{Kind: "none"}
+	// a recipient whose vesting is unfinished while the scenario runs: lockup ahead of vesting, lockup
+	// behind vesting, or both running on the same time scale
+	if r.Intn(3) != 0 {
+		lens := func(n int, lo, span int64) []int64 {
+			out := make([]int64, n)
+			for i := range out {
+				out[i] = lo + r.Int63n(span)
+			}
+			return out
+		}
+		nl, nv := 1+r.Intn(3), 1+r.Intn(4)
+		var ll, vl []int64
+		switch r.Intn(3) {
+		case 0: // lockup ahead
+			ll, vl = lens(nl, 1, 3), lens(nv, 20, 200000)
+		case 1: // lockup behind
+			ll, vl = lens(nl, 10, 100000), lens(nv, 2, 8)
+		default: // both running
+			ll, vl = lens(nl, 1, 8), lens(nv, 1, 8)
+		}
+		lock := posPeriods(nl)
+		for i := range lock {
+			lock[i].Len = ll[i]
+		}
+		// vesting periods: the same total cut into nv positive parts
+		total := lvTotal(lock)
+		if total.Cmp(big.NewInt(int64(nv))) < 0 {
+			nv = int(total.Int64())
+			vl = vl[:nv]
+		}
+		rest := new(big.Int).Set(total)
+		vest := make([]lvPeriod, 0, nv)
+		for i := 0; i < nv; i++ {
+			part := new(big.Int).Set(rest)
+			if i < nv-1 {
+				// leave at least 1 for each remaining part
+				room := new(big.Int).Sub(rest, big.NewInt(int64(nv-i)))
+				part = new(big.Int).Add(lvRandBig(r, room), big.NewInt(1))
+			}
+			rest.Sub(rest, part)
+			vest = append(vest, lvP(vl[i], part.String()))
+		}
+		cfg.Accts["a5"] = lvAcctCfg{Kind: "vesting", Start: int64(r.Intn(8)) - 4, Lockup: lock, Vesting: vest, Extra: extra()}
+	}
 	return cfg
 }
 
@@ -682,6 +726,8 @@ func (e *lvEnv) randomStep(r *rand.Rand) lvStep {
 		to := pick()
 		if r.Intn(4) == 0 {
 			to = from
+		} else if _, has := e.keys["a5"]; has && r.Intn(3) == 0 {
+			to = "a5"
 		}
 		return lvStep{"redeem", M{"from": from, "to": to, "denom": denom, "amt": amt.String(), "t": t}}
 	}
